@@ -94,6 +94,60 @@ def _is_read(ctx, call):
     return _is_self_call(call, FP, 'read')
 
 
+def _unconditional_calls(body):
+    """calls executed whenever the statement list runs to its first return: not under if/while/for/handlers, not in the
+    short-circuited part of a boolean or conditional expression, and not after a return"""
+    out = []
+
+    def expr(e):
+        if isinstance(e, ast.BoolOp):
+            expr(e.values[0])
+            return
+        if isinstance(e, ast.IfExp):
+            expr(e.test)
+            return
+        if isinstance(e, (ast.Lambda, ast.GeneratorExp, ast.ListComp, ast.SetComp, ast.DictComp)):
+            return
+        if isinstance(e, ast.Call):
+            out.append(e)
+        for ch in ast.iter_child_nodes(e):
+            if isinstance(ch, ast.expr):
+                expr(ch)
+
+    def stmts(b):
+        for st in b:
+            if isinstance(st, ast.Return):
+                if st.value is not None:
+                    expr(st.value)
+                return False
+            if isinstance(st, (ast.If, ast.While)):
+                expr(st.test)
+                continue
+            if isinstance(st, ast.For):
+                expr(st.iter)
+                continue
+            if isinstance(st, ast.With):
+                for it in st.items:
+                    expr(it.context_expr)
+                if stmts(st.body) is False:
+                    return False
+                continue
+            if isinstance(st, ast.Try):
+                if stmts(st.body) is False:
+                    return False
+                if stmts(st.finalbody) is False:
+                    return False
+                continue
+            if isinstance(st, (ast.FunctionDef, ast.ClassDef)):
+                continue
+            for ch in ast.iter_child_nodes(st):
+                if isinstance(ch, ast.expr):
+                    expr(ch)
+        return True
+    stmts(body)
+    return out
+
+
 def _multi_helpers(ctx, ci):
     """obligations on the two private methods of the multi-part design (position of every handle read)"""
     obs = []
@@ -116,8 +170,14 @@ def _multi_helpers(ctx, ci):
                     lin(t.comparators[0]) == Lin({ps: 1, pl: 1}):
                 seeks = [c for st in i.body for c in ast.walk(st) if isinstance(c, ast.Call) and isinstance(c.func, ast.Attribute) and c.func.attr == 'seek']
                 rets = [st for st in i.body if isinstance(st, ast.Return)]
+                # the handle is shared (the opened image, the caller's file object): whoever used it last left it
+                # anywhere, so the positioning may not depend on a condition (a remembered position, a flag)
+                uncond = [c for c in _unconditional_calls(i.body) if isinstance(c.func, ast.Attribute) and c.func.attr == 'seek']
                 why = 'the handle of the selected part is not positioned at start-in-handle + (offset - logical start of the part)'
-                if len(seeks) == 1 and norm(seeks[0].func.value) == fp and seeks[0].args and lin(seeks[0].args[0]) == Lin({sp: 1, o: 1, ps: -1}) and \
+                if len(seeks) == 1 and not uncond:
+                    why = ('the positioning `%s` is executed only under a condition: the handle is shared with every other reader of the image and with the '
+                           'caller, so a position remembered from the last read says nothing about where the handle is now' % norm(seeks[0]))
+                elif len(seeks) == 1 and norm(seeks[0].func.value) == fp and seeks[0].args and lin(seeks[0].args[0]) == Lin({sp: 1, o: 1, ps: -1}) and \
                         (len(seeks[0].args) == 1 or norm(seeks[0].args[1]) in ('0', 'os.SEEK_SET', 'io.SEEK_SET')):
                     why = 'does not return (handle, bytes left in the part)'
                     if rets and isinstance(rets[0].value, ast.Tuple) and len(rets[0].value.elts) == 2 and norm(rets[0].value.elts[0]) == fp and \
